@@ -546,6 +546,10 @@ func numberingLoop(prog *load.Program, info *types.Info, fd *ast.FuncDecl, fs *a
 						}
 					}
 				}
+				// a function-typed parameter of this (unexported) function: what every call site hands in
+				if len(call.Args) == 1 && mentionsItoa(call.Args[0]) && paramIsMembership(prog, info, fd, info.ObjectOf(id)) {
+					return true
+				}
 			}
 			return false
 		}
@@ -1183,4 +1187,86 @@ func itoaOfParam(info *types.Info, ftype *ast.FuncType, body *ast.BlockStmt, pi 
 		return true
 	})
 	return n > 0 && okAll
+}
+
+// paramIsMembership: v is a parameter of the unexported moq function fd of type func(string) bool, and
+// every call of fd passes a membership test there: a method value or function of moq that is one, or a
+// function literal whose body is one.
+func paramIsMembership(prog *load.Program, info *types.Info, fd *ast.FuncDecl, v types.Object) bool {
+	if v == nil || fd.Type.Params == nil {
+		return false
+	}
+	pi, k := -1, 0
+	for _, f := range fd.Type.Params.List {
+		for _, nm := range f.Names {
+			if info.Defs[nm] == v {
+				pi = k
+			}
+			k++
+		}
+	}
+	self, _ := info.Defs[fd.Name].(*types.Func)
+	if pi < 0 || self == nil || self.Exported() {
+		return false
+	}
+	// the parameter is only ever called
+	onlyCalled := true
+	ast.Inspect(fd.Body, func(n ast.Node) bool {
+		switch x := n.(type) {
+		case *ast.CallExpr:
+			if id, ok := ast.Unparen(x.Fun).(*ast.Ident); ok && info.ObjectOf(id) == v {
+				for _, a := range x.Args {
+					ast.Inspect(a, func(m ast.Node) bool {
+						if id, ok := m.(*ast.Ident); ok && info.ObjectOf(id) == v {
+							onlyCalled = false
+						}
+						return true
+					})
+				}
+				return false
+			}
+		case *ast.Ident:
+			if info.ObjectOf(x) == v {
+				onlyCalled = false
+			}
+		}
+		return true
+	})
+	if !onlyCalled {
+		return false
+	}
+	calls, good := 0, 0
+	for _, cs := range staticCallsOf(prog, self) {
+		calls++
+		if pi >= len(cs.call.Args) || cs.call.Ellipsis.IsValid() {
+			continue
+		}
+		switch a := ast.Unparen(cs.call.Args[pi]).(type) {
+		case *ast.FuncLit:
+			if membershipBody(prog, cs.info, a.Type, a.Body, 0, 1) {
+				good++
+			}
+		case *ast.Ident:
+			if lit := boundFuncLit(cs.info, cs.fd, a); lit != nil && membershipBody(prog, cs.info, lit.Type, lit.Body, 0, 1) {
+				good++
+			} else if f, ok := cs.info.ObjectOf(a).(*types.Func); ok && isMembership(prog, f, 0, 1) {
+				good++
+			}
+		case *ast.SelectorExpr:
+			if f, ok := cs.info.ObjectOf(a.Sel).(*types.Func); ok && isMembership(prog, f, 0, 1) {
+				good++
+			}
+		}
+	}
+	// the function is not used as a value anywhere (every use is one of the calls counted)
+	uses := 0
+	for _, pk := range prog.MoqPackages() {
+		for id, o := range pk.TypesInfo.Uses {
+			_ = id
+			if f, ok := o.(*types.Func); ok && f.Origin() == self {
+				uses++
+			}
+		}
+	}
+	return calls > 0 && calls == good && uses == calls
 }
